@@ -51,6 +51,7 @@ fn main() {
     let args = parse_args();
     std::fs::create_dir_all(&args.out).ok();
     let rc = match args.prop.as_str() {
+        "c04" => props::c04::run(&args),
         "c11" => props::c11::run(&args),
         "c12" => props::c12::run(&args),
         "c13" => props::c13::run(&args),
